@@ -184,3 +184,211 @@ class DecodeIntSpec(KernelSpec):
 
 def values_equal_hook(a, b):
     return None
+
+
+# ----------------------------------------------------------------------------------------------------
+# string shapes
+# ----------------------------------------------------------------------------------------------------
+def pack_strings(strs):
+    """PackedStrings byte format (list of I(u8)) for a list of byte lists"""
+    out = []
+    for s in strs:
+        n = len(s)
+        while n > 254:
+            out.append(I("u8", 255))
+            n -= 255
+        out.append(I("u8", n))
+        out += list(s)
+    return out
+
+
+DICT = [b"a", b"bc", b"", b"def"]
+
+
+class DecodeStrSpec(KernelSpec):
+    """shape = ('dict', idx_ty, nullable, n) | ('packed', nullable, lens) | ('lz4_packed', nullable, lens) | ('hexpacked',)"""
+    fn_path = "mem_store::column::decode"
+    diff_cases = 1
+
+    def instantiations(self, tier):
+        return [{"nat": "column_decode_str"}]
+
+    def shapes(self, tier, inst):
+        out = []
+        for ty in (("u8", "u16") if tier == "quick" else ("u8", "u16", "u32")):
+            for nullable in (False, True):
+                out.append(("dict", ty, nullable, 2 if tier == "quick" else 3))
+        for nullable in (False, True):
+            out.append(("packed", nullable, (1, 0, 2)))
+            out.append(("lz4_packed", nullable, (2, 1)))
+        if tier == "thorough":
+            out += [("packed", True, (254, 255)), ("packed", False, ()), ("dict", "u8", True, 9)]
+        out.append(("hexpacked",))
+        return out
+
+    def sym_inputs(self, inst, shape):
+        kind = shape[0]
+        inp = {}
+        pre = []
+        if kind == "dict":
+            _, ty, nullable, n = shape
+            inp["idx"] = [sym(ty, f"i{k}") if k < 3 else I(ty, k % len(DICT)) for k in range(n)]
+            for x in inp["idx"]:
+                if not x.concrete:
+                    pre.append(z3.ULT(x.v, len(DICT)))
+            if nullable:
+                inp["present"] = [sym("u8", f"p{k}") for k in range((n + 7) // 8)]
+        elif kind in ("packed", "lz4_packed"):
+            _, nullable, lens = shape
+            from .stringpack import mk_bytes
+            for k, ln in enumerate(lens):
+                b, p = mk_bytes(f"s{k}", ln)
+                inp[f"s{k}"] = b
+                pre += p
+            if nullable:
+                inp["present"] = [sym("u8", f"p{k}") for k in range((len(lens) + 7) // 8)]
+            if kind == "lz4_packed":
+                # the stored (compressed) bytes are whatever lz4 produced: some byte string that is *not* the plain packing
+                inp["compressed"] = [I("u8", 9), I("u8", 1), I("u8", 2), I("u8", 3)]
+        return inp, pre
+
+    def strings(self, shape, inp):
+        if shape[0] in ("packed", "lz4_packed"):
+            return [inp[f"s{k}"] for k in range(len(shape[2]))]
+        return None
+
+    def explore(self, ctx, ex, fn, inst, shape, inp, pre):
+        kind = shape[0]
+        stubs = []
+        if kind == "dict":
+            _, ty, nullable, n = shape
+            T = enc({"u8": "U8", "u16": "U16", "u32": "U32"}[ty])
+            ops = [op("PushDataSection", I("usize", 1)), op("PushDataSection", I("usize", 2)), op("DictLookup", T)]
+            ranges = []
+            backing = []
+            for s in DICT:
+                ranges.append(I("u64", (len(backing) << 24) + len(s)))
+                backing += [I("u8", x) for x in s]
+            secs = [Ref(Cell(VecObj(list(inp["idx"]), ty))), Ref(Cell(VecObj(ranges, "u64"))), Ref(Cell(VecObj(backing, "u8")))]
+            if nullable:
+                ops = [op("PushDataSection", I("usize", 3)), op("Nullable")] + ops
+                secs.append(Ref(Cell(VecObj(list(inp["present"]), "u8"))))
+        elif kind in ("packed", "lz4_packed"):
+            _, nullable, lens = shape
+            plain = pack_strings(self.strings(shape, inp))
+            ops = [op("UnpackStrings")]
+            if kind == "lz4_packed":
+                ops = [op("LZ4", enc("U8"), I("usize", len(plain)))] + ops
+                secs = [Ref(Cell(VecObj(list(inp["compressed"]), "u8")))]
+
+                def lz4_decoder(ex_, st, fr, path, args, m):
+                    return Opaque("lz4 frame decoder")
+
+                def lz4_decode(ex_, st, fr, path, args, m):
+                    from ..mirsym.models import seq_of
+                    el, lo, hi = seq_of(args[1])
+                    if hi - lo != len(plain):
+                        raise interp.PanicExc("lz4 decode into a buffer of the wrong size")
+                    for k in range(len(plain)):
+                        el[lo + k] = plain[k]
+                    return I("usize", len(plain))
+                stubs += [(re.compile(r"(?:^|::)decoder$"), lz4_decoder), (re.compile(r"(?:^|::)lz4::decode::<u8>$"), lz4_decode)]
+            else:
+                secs = [Ref(Cell(VecObj(plain, "u8")))]
+            if nullable:
+                ops += [op("PushDataSection", I("usize", 1)), op("Nullable")]
+                secs.append(Ref(Cell(VecObj(list(inp["present"]), "u8"))))
+        else:
+            ops = [op("UnhexpackStrings", I("bool", 0), I("usize", 12))]
+            secs = [Ref(Cell(VecObj([I("u8", 2), I("u8", 0xab), I("u8", 0xcd)], "u8")))]
+        ops_cell = Cell(Agg("array", ops))
+
+        def codec_ops_stub(ex_, st, fr, path, args, m):
+            return Ref(ops_cell, (), (0, len(ops)))
+        ex.stubs = stubs + [(re.compile(r"(?:^|::)Codec::ops$"), codec_ops_stub)]
+        st = ex.start(fn, [Ref(Cell(Havoc("Codec", "codec"))), slice_arg(secs)], {}, pc=pre)
+        return ex.explore(st)
+
+    def view(self, value):
+        from ..mirsym.models import seq_of
+        r, data, present, ty = data_view(value)
+        strs = []
+        for e in data.elems:
+            if isinstance(e, Ref):
+                el, lo, hi = seq_of(e)
+                strs.append(list(el[lo:hi]))
+            else:
+                strs.append(None)
+        return ty, strs, (list(present.elems) if present is not None else None)
+
+    def post(self, inst, shape, inp, value, state=None):
+        kind = shape[0]
+        if isinstance(value, tuple):
+            ty, strs, present = value
+        else:
+            ty, strs, present = self.view(value)
+        if kind == "hexpacked":
+            return [("hex-packed string columns can be decoded", B(ty == "str"))]
+        nullable = shape[2] if kind == "dict" else shape[1]
+        n = shape[3] if kind == "dict" else len(shape[2])
+        conds = [("decoded column is a string column", B(ty == "str")), ("one string per row", B(len(strs) == n))]
+        if ty != "str" or len(strs) != n:
+            return conds
+        conds.append(("nullability preserved (null map kept iff the column is nullable)", B((present is not None) == bool(nullable))))
+        from .merge import MergeKeepNullableSpec
+        bit = MergeKeepNullableSpec.bit
+        for i in range(n):
+            p = bit(inp["present"], i) if nullable else B(True)
+            if nullable and present is not None:
+                conds.append((f"row {i}: NULL iff the stored null map says so", binop("Eq", bit(present, i), p)))
+            if kind == "dict":
+                # strs[i] is concrete per path (the index was concretised): it must be DICT[idx]
+                got = strs[i]
+                ok = B(False)
+                for k, d in enumerate(DICT):
+                    same = got is not None and len(got) == len(d) and all(g.concrete and g.v == x for g, x in zip(got, d))
+                    ok = bor(ok, band(binop("Eq", inp["idx"][i], I(inp["idx"][i].ty, k)), B(same)))
+                conds.append((f"row {i}: dictionary entry of the stored index", implies(p, ok)))
+            else:
+                want = inp[f"s{i}"]
+                got = strs[i]
+                if got is None or len(got) != len(want):
+                    conds.append((f"row {i}: string length preserved", implies(p, B(False))))
+                else:
+                    eqs = [binop("Eq", a, b) for a, b in zip(got, want)]
+                    conds.append((f"row {i}: string bytes preserved", implies(p, band(*eqs) if eqs else B(True))))
+        return conds
+
+    def random_inputs(self, rng, inst, shape):
+        inp, _ = self.sym_inputs(inst, shape)
+        out = {}
+        for k, v in inp.items():
+            if k == "idx":
+                out[k] = [x if x.concrete else I(x.ty, rng.randrange(len(DICT))) for x in v]
+            elif k.startswith("s"):
+                out[k] = [x if x.concrete else I("u8", rng.randint(33, 126)) for x in v]
+            else:
+                out[k] = [x if x.concrete else I("u8", rng.randint(0, 255)) for x in v]
+        return out
+
+    def native(self, inst, shape, inp):
+        if inp is None:
+            return ("column_decode_str", [])
+        kind = shape[0]
+        if kind == "dict":
+            _, ty, nullable, n = shape
+            return ("column_decode_str", ["dict", ty, fmt_ints(inp["idx"]), ",".join(d.hex() or "-" for d in DICT), fmt_ints(inp["present"]) if nullable else "none"])
+        if kind in ("packed", "lz4_packed"):
+            _, nullable, lens = shape
+            strs = [bytes(x.v for x in inp[f"s{k}"]).hex() or "-" for k in range(len(lens))]
+            return ("column_decode_str", [kind, ",".join(strs) if strs else "none", fmt_ints(inp["present"]) if nullable else "none"])
+        return ("column_decode_str", ["hexpacked"])
+
+    def parse_native(self, inst, shape, toks):
+        # <Str|NullableStr|other> <hex,hex,..|none> <present|none>
+        ty = "str" if toks[0] in ("Str", "NullableStr") else toks[0]
+        strs = [] if toks[1] == "none" else [[I("u8", x) for x in (bytes.fromhex(h) if h != "-" else b"")] for h in toks[1].split(",")]
+        return (ty, strs, None if toks[2] == "none" else parse_ints(toks[2], "u8"))
+
+    def native_view(self, inst, shape, v, st):
+        return self.view(v)
